@@ -377,3 +377,149 @@ Example C18_pool_second_put_on_error_path_shares :
   (let s := prun nput_code double_put_trace in
    p_out s 1%nat = [[[2]; [4]]] /\ p_out s 2%nat = [[[3]]]).
 Proof. exact double_put_shares. Qed.
+
+(* ---- 8. every status: the response is labelled gzip exactly when its body is gzip-encoded ----
+   For EVERY status code the handler chooses (1xx, 204, 304, 3xx with a body, 4xx, 5xx: [s] is any
+   script, so [OWriteHeader code] with any [code]) and every write pattern the response of the
+   gzip layer is one of two things, nothing in between:
+   - the gzip layer applied nothing, and the response IS the identity response (status, every
+     header — Content-Encoding, Content-Length, Vary, ETag — and body);
+   - the body is one gzip stream holding exactly the identity run's writes, the response says
+     Content-Encoding: gzip alone, carries no Content-Length (the identity length would be
+     wrong), has the identity run's status, and the identity response named no coding. *)
+Theorem C18_labelled_iff_encoded :
+  forall dexts cs cfgs path ae s,
+  let out := gzip_serve dexts cs cfgs path ae s in
+  (applied out = [] /\ out = run_plain s) \/
+  (applied out = [GZIP] /\ r_ce out = [GZIP] /\ r_cl out = [] /\
+   r_status out = r_status (run_plain s) /\ no_coding (r_ce (run_plain s)) = true /\
+   exists ws, r_segs out = [SG ws] /\ all_plain (r_segs (run_plain s)) = Some (concat ws)).
+Proof. exact labelled_iff_encoded. Qed.
+Print Assumptions C18_labelled_iff_encoded.
+
+(* both sides are reached for every status class, with a body written and without *)
+Example C18_labelled_iff_encoded_every_status_class :
+  forallb (fun st =>
+    let run := gzip_serve [[]] false [bare] (bs "/x") (bs "gzip") in
+    let enc := run [OSet K_CT (bs "text/plain"); OSet K_CL (bs "3"); OWriteHeader st; OWrite [1; 2; 3]] in
+    let enc0 := run [OSet K_CT (bs "text/plain"); OWriteHeader st] in
+    let pre := run [OSet K_CE (bs "br"); OSet K_CL (bs "3"); OWriteHeader st; OWrite [1; 2; 3]] in
+    lbeq (applied enc) [GZIP] && lbeq (r_ce enc) [GZIP] && lbeq (r_cl enc) [] && (r_status enc =? st)%Z &&
+    lbeq (applied enc0) [GZIP] && lbeq (r_ce enc0) [GZIP] && (r_status enc0 =? st)%Z &&
+    lbeq (applied pre) [] && lbeq (r_ce pre) [bs "br"] && lbeq (r_cl pre) [bs "3"] && (r_status pre =? st)%Z)
+    [101; 200; 201; 204; 205; 206; 226; 300; 301; 302; 303; 304; 307; 308; 400; 401; 403; 404; 410; 416; 451; 500; 502; 503; 599]%Z = true.
+Proof. vm_compute. reflexivity. Qed.
+
+(* ---- 9. informational responses (1xx other than 101): the faithful model ----
+   [gzip_serve_i] / [run_plain_i] model net/http's treatment of WriteHeader(1xx): an
+   informational response is sent and the final response stays open.  On every script without
+   such a call they ARE the functions of the theorems above, so all of them hold of the faithful
+   model there. *)
+Theorem C18_info_free_same_model :
+  forall dexts cs cfgs path ae s,
+  info_free s = true ->
+  gzip_serve_i dexts cs cfgs path ae s = gzip_serve dexts cs cfgs path ae s /\
+  run_plain_i s = run_plain s.
+Proof. intros dexts cs cfgs path ae s H. split; [apply gzip_serve_i_same | apply run_plain_i_same]; exact H. Qed.
+Print Assumptions C18_info_free_same_model.
+
+Example C18_info_free_same_model_nonvacuous :
+  info_free [OSet K_CL (bs "3"); OFlush; OWriteHeader 404; OWriteHeader 101; OWrite [1; 2; 3]; OWriteHeader 200] = true.
+Proof. vm_compute. reflexivity. Qed.
+
+(* With an informational WriteHeader the statement is FALSE of the code (finding F-C18-8):
+   ResponseFilterWriter.WriteHeader decides on the headers present at the 103, and
+   gzipResponseWriter.WriteHeader rewrites the header map again at the final WriteHeader.  A
+   handler that sends 103 Early Hints and then labels its (already brotli-encoded) body gets a
+   gzip layer on top and loses its label; one that then sets Content-Length and writes without
+   WriteHeader gets the identity Content-Length and its own label on a gzip body. *)
+Theorem C18_not_double_encoded_informational_refuted :
+  exists s,
+  let out := gzip_serve_i [[]] false [bare] (bs "/x") (bs "gzip") s in
+  r_ce (run_plain_i s) = [bs "br"] /\ r_status (run_plain_i s) = 200%Z /\
+  r_status out = 200%Z /\ r_ce out = [GZIP] /\ applied out = [GZIP].
+Proof.
+  exists [OWriteHeader 103; OSet K_CE (bs "br"); OWriteHeader 200; OWrite [1; 2; 3]].
+  vm_compute. repeat split; reflexivity.
+Qed.
+Print Assumptions C18_not_double_encoded_informational_refuted.
+
+Theorem C18_labelled_iff_encoded_informational_refuted :
+  exists s,
+  let out := gzip_serve_i [[]] false [bare] (bs "/x") (bs "gzip") s in
+  applied out = [GZIP] /\ r_ce out = [bs "br"] /\ r_cl out = [bs "3"] /\ r_segs out = [SG [[1; 2; 3]]].
+Proof.
+  exists [OWriteHeader 103; OSet K_CE (bs "br"); OSet K_CL (bs "3"); OWrite [1; 2; 3]].
+  vm_compute. repeat split; reflexivity.
+Qed.
+Print Assumptions C18_labelled_iff_encoded_informational_refuted.
+
+(* the strongest statements true of the faithful model: everything above, for every script
+   without informational WriteHeader *)
+Theorem C18_not_double_encoded_informational_partial :
+  forall dexts cs cfgs path ae s,
+  info_free s = true ->
+  no_coding (r_ce (run_plain_i s)) = false ->
+  gzip_serve_i dexts cs cfgs path ae s = run_plain_i s.
+Proof. exact not_double_encoded_i. Qed.
+Print Assumptions C18_not_double_encoded_informational_partial.
+
+Example C18_not_double_encoded_informational_partial_nonvacuous :
+  let s := [OSet K_CE (bs "br"); OWriteHeader 308; OWrite [1; 2; 3]] in
+  info_free s = true /\ no_coding (r_ce (run_plain_i s)) = false.
+Proof. vm_compute. split; reflexivity. Qed.
+
+Theorem C18_gzip_transparent_informational_partial :
+  forall (gz : list bytes -> bytes) (gunzip : bytes -> option bytes),
+  (forall ws, gunzip (gz ws) = Some (concat ws)) ->
+  forall dexts cs cfgs path ae head s,
+  info_free s = true ->
+  transparent gz gunzip head (gzip_serve_i dexts cs cfgs path ae s) (run_plain_i s).
+Proof. exact gzip_transparent_i. Qed.
+Print Assumptions C18_gzip_transparent_informational_partial.
+
+Theorem C18_labelled_iff_encoded_informational_partial :
+  forall dexts cs cfgs path ae s,
+  info_free s = true ->
+  let out := gzip_serve_i dexts cs cfgs path ae s in
+  (applied out = [] /\ out = run_plain_i s) \/
+  (applied out = [GZIP] /\ r_ce out = [GZIP] /\ r_cl out = [] /\
+   r_status out = r_status (run_plain_i s) /\ no_coding (r_ce (run_plain_i s)) = true /\
+   exists ws, r_segs out = [SG ws] /\ all_plain (r_segs (run_plain_i s)) = Some (concat ws)).
+Proof. exact labelled_iff_encoded_i. Qed.
+Print Assumptions C18_labelled_iff_encoded_informational_partial.
+
+(* ---- 10. sibling selection as a function of the Accept-Encoding list: completeness ----
+   with C18_static_sibling_choice_sound (the one served is the FIRST eligible of the priority
+   table) and C18_sibling_only_if_offered (only a coding the request offers with q > 0): for all
+   offers and all sibling sets, whenever some coding of the table is listed plainly and its
+   sibling is on disk, a sibling is served (not the identity file) *)
+Theorem C18_sibling_served_when_offered :
+  forall prio ae avail n e,
+  In (n, e) prio -> accepted ae n = true -> avail e = true ->
+  exists n' e', select_sibling prio ae avail = Some (n', e') /\
+    accepted ae n' = true /\ avail e' = true /\
+    exists l1 l2, prio = l1 ++ (n', e') :: l2 /\
+      forall n0 e0, In (n0, e0) l1 -> accepted ae n0 = false \/ avail e0 = false.
+Proof.
+  intros prio ae avail n e Hin Ha Hv.
+  destruct (sibling_served_when_offered prio ae avail n e Hin Ha Hv) as (n' & e' & E).
+  exists n', e'. split; [exact E|]. exact (select_sibling_sound _ _ _ _ _ E).
+Qed.
+Print Assumptions C18_sibling_served_when_offered.
+
+Example C18_sibling_served_when_offered_nonvacuous :
+  In (bs "gzip", bs ".gz") gen_c18_static_priority /\ accepted (bs "br;q=0, gzip") (bs "gzip") = true /\
+  (* every subset of {zstd, br, gzip} offered x every subset of siblings: served = first of the
+     table that is both offered and on disk, none iff there is no such coding *)
+  forallb (fun sib => forallb (fun off =>
+      let ae := (if N.testbit off 0 then bs "gzip, " else []) ++ (if N.testbit off 2 then bs "zstd," else []) ++
+                (if N.testbit off 1 then bs " br" else bs "identity") in
+      let avail e := (beq e (bs ".zst") && N.testbit sib 2) || (beq e (bs ".br") && N.testbit sib 1) ||
+                     (beq e (bs ".gz") && N.testbit sib 0) in
+      let both := N.land sib off in
+      match select_sibling gen_c18_static_priority ae avail with
+      | Some (n, _) => if N.testbit both 2 then beq n (bs "zstd") else if N.testbit both 1 then beq n (bs "br") else N.testbit both 0 && beq n (bs "gzip")
+      | None => both =? 0
+      end) [0; 1; 2; 3; 4; 5; 6; 7]) [0; 1; 2; 3; 4; 5; 6; 7] = true.
+Proof. split; [vm_compute; tauto|]. split; vm_compute; reflexivity. Qed.
